@@ -135,12 +135,15 @@ theorem run_spec (ops : List RegOp) :
 theorem RespSpec.candidates_clear (s : Svc) (q : Question) :
     RespSpec.candidates lower ettl s.clearMemo q = RespSpec.candidates lower ettl s q := rfl
 
+theorem RespSpec.candidatesS_clear (s : Svc) (q : Question) :
+    RespSpec.candidatesS lower ettl s.clearMemo q = RespSpec.candidatesS lower ettl s q := rfl
+
 theorem RespSpec.preds_clear (svcs : List Svc) (qs : List Question) (known : List Rec) :
     (∀ a, RespSpec.soundAnswer lower ettl (svcs.map Svc.clearMemo) qs known a = RespSpec.soundAnswer lower ettl svcs qs known a)
     ∧ (∀ off, RespSpec.completePerService lower ettl (svcs.map Svc.clearMemo) qs known off = RespSpec.completePerService lower ettl svcs qs known off)
     ∧ (∀ p, RespSpec.additionalsOk lower ettl (svcs.map Svc.clearMemo) p = RespSpec.additionalsOk lower ettl svcs p) := by
   refine ⟨fun a => ?_, fun off => ?_, fun p => ?_⟩
-  · simp only [RespSpec.soundAnswer, List.any_map, Function.comp_def, RespSpec.candidates_clear]
+  · simp only [RespSpec.soundAnswer, List.any_map, Function.comp_def, RespSpec.candidatesS_clear]
   · simp only [RespSpec.completePerService, List.all_map, Function.comp_def, RespSpec.candidates_clear]
   · simp only [RespSpec.additionalsOk, List.any_map, Function.comp_def]
     rfl
